@@ -6,6 +6,7 @@ import (
 	"fmt"
 	"sort"
 	"strings"
+	"time"
 
 	"github.com/samaritan-proxy/samaritan/host"
 	"github.com/samaritan-proxy/samaritan/pb/config/service"
@@ -50,10 +51,15 @@ type c06world struct {
 	healthy  map[string]bool
 	conns    []*c06conn
 	nconn    int
+	// types: the type each address was announced with last (the registry may announce a member again with another one)
+	types map[string]host.Type
 }
 
 func c06setup(policy service.LoadBalancePolicy, initial []string) *c06world {
-	w := &c06world{backends: map[string]*c06backend{}, members: map[string]bool{}, healthy: map[string]bool{}}
+	w := &c06world{backends: map[string]*c06backend{}, members: map[string]bool{}, healthy: map[string]bool{}, types: map[string]host.Type{}}
+	for n, t := range c06types {
+		w.types[n] = t
+	}
 	for _, n := range []string{"a", "b", "c"} {
 		be := &c06backend{name: n}
 		w.backends[n] = be
@@ -85,7 +91,7 @@ func (w *c06world) usable() []string {
 		if !w.healthy[n] {
 			continue
 		}
-		if c06types[n] == host.TypeMain {
+		if w.types[n] == host.TypeMain {
 			main = append(main, n)
 		} else {
 			backup = append(backup, n)
@@ -137,7 +143,10 @@ func c06histBody(depth int) func() {
 		policy := []service.LoadBalancePolicy{service.LoadBalancePolicy_ROUND_ROBIN, service.LoadBalancePolicy_RANDOM, service.LoadBalancePolicy_LEAST_CONNECTION}[sched.Choose(sched.ClsInput, 3, "policy")]
 		w := c06setup(policy, []string{"a", "b", "c"})
 		var hist []string
-		ops := []string{"add a", "add b", "add c", "remove a", "remove b", "remove c", "remove-as-other-type a", "replace {a}", "replace {b,c}", "replace {a,b,c}", "remove a,b", "remove b,a", "unhealthy a", "unhealthy b", "unhealthy c", "healthy a", "healthy b", "connect", "disconnect", "late-unhealthy a", "late-healthy a", "re-add a", "connect-first-dial-fails"}
+		ops := []string{"add a", "add b", "add c", "remove a", "remove b", "remove c", "remove-as-other-type a", "replace {a}", "replace {b,c}", "replace {a,b,c}", "remove a,b", "remove b,a", "unhealthy a", "unhealthy b", "unhealthy c", "healthy a", "healthy b", "connect", "disconnect", "late-unhealthy a", "late-healthy a", "re-add a", "connect-first-dial-fails", "re-add-as-other-type a", "config-update"}
+		// round robin: while neither membership nor health changes, any len(usable) consecutive selections visit every
+		// usable host once (configuration updates that keep the policy do not disturb the rotation)
+		var rrWindow []string
 		// the host object a health check started on at the beginning; its late results must not count once the
 		// address was removed or re-added as a fresh object
 		origA := w.stored("a")
@@ -145,17 +154,40 @@ func c06histBody(depth int) func() {
 			op := ops[sched.Choose(sched.ClsInput, len(ops), "op")]
 			hist = append(hist, op)
 			f := strings.Fields(op)
+			if f[0] != "connect" && f[0] != "disconnect" && f[0] != "config-update" {
+				rrWindow = nil
+			}
 			switch f[0] {
+			case "config-update":
+				// a configuration update that keeps the balancing policy (another idle timeout)
+				cfg := vfTCPConfig(policy, 0)
+				cfg.IdleTimeout = vfDur(time.Duration(11+step) * time.Minute)
+				if err := w.p.OnSvcConfigUpdate(cfg); err != nil {
+					sched.Fail("harness-config-update", err.Error())
+				}
+			case "re-add-as-other-type":
+				// the registry announces a member again, now with the other type (main <-> backup)
+				if w.members[f[1]] {
+					other := host.TypeBackup
+					if w.types[f[1]] == host.TypeBackup {
+						other = host.TypeMain
+					}
+					w.p.OnSvcHostAdd([]*host.Host{host.NewWithType(c06addrs[f[1]], other)})
+					w.types[f[1]] = other
+					w.healthy[f[1]] = true
+				}
 			case "add":
 				if !w.members[f[1]] {
 					w.p.OnSvcHostAdd([]*host.Host{host.NewWithType(c06addrs[f[1]], c06types[f[1]])})
 					w.members[f[1]], w.healthy[f[1]] = true, true
+					w.types[f[1]] = c06types[f[1]]
 				}
 			case "re-add":
 				// the registry announces a member again: the controller hands over a fresh object for the address
 				if w.members[f[1]] {
 					w.p.OnSvcHostAdd([]*host.Host{host.NewWithType(c06addrs[f[1]], c06types[f[1]])})
 					w.healthy[f[1]] = true
+					w.types[f[1]] = c06types[f[1]]
 				}
 			case "connect-first-dial-fails":
 				// the first connect attempt of this connection is refused and, while it is pending, another usable
@@ -197,7 +229,7 @@ func c06histBody(depth int) func() {
 			case "remove-as-other-type":
 				// the registry announces the removal with a descriptor whose type differs from the stored host's
 				other := host.TypeBackup
-				if c06types[f[1]] == host.TypeBackup {
+				if w.types[f[1]] == host.TypeBackup {
 					other = host.TypeMain
 				}
 				w.p.OnSvcHostRemove([]*host.Host{host.NewWithType(c06addrs[f[1]], other)})
@@ -221,6 +253,7 @@ func c06histBody(depth int) func() {
 				w.members, w.healthy = map[string]bool{}, map[string]bool{}
 				for _, n := range names {
 					w.members[n], w.healthy[n] = true, true
+					w.types[n] = c06types[n]
 				}
 			case "unhealthy", "healthy":
 				if h := w.stored(f[1]); h != nil {
@@ -264,6 +297,18 @@ func c06histBody(depth int) func() {
 					if ok && (c.client.Peer().IsClosed() || c.bconn.Peer().IsClosed()) {
 						sched.Fail("connection-to-usable-host-closed-at-once", fmt.Sprintf("%s history %v: relayed to %s, which is a usable member, but the proxy closed the connection right away (downstream closed=%v upstream closed=%v)", policy, hist, c.backend, c.client.Peer().IsClosed(), c.bconn.Peer().IsClosed()))
 					}
+					if ok && policy == service.LoadBalancePolicy_ROUND_ROBIN {
+						rrWindow = append(rrWindow, c.backend)
+						if n := len(us); len(rrWindow) >= n {
+							seen := map[string]bool{}
+							for _, b := range rrWindow[len(rrWindow)-n:] {
+								seen[b] = true
+							}
+							if len(seen) != n {
+								sched.Fail("round-robin-rotation-disturbed / unchanged hosts", fmt.Sprintf("history %v: the last %d selections %v do not visit each of the usable hosts %v once", hist, n, rrWindow[len(rrWindow)-n:], us))
+							}
+						}
+					}
 					if !ok {
 						why := "connection-relayed-to-unusable-host"
 						switch {
@@ -271,7 +316,7 @@ func c06histBody(depth int) func() {
 							why = "connection-relayed-to-removed-host"
 						case !w.healthy[c.backend]:
 							why = "connection-relayed-to-unhealthy-host"
-						case c06types[c.backend] == host.TypeBackup:
+						case w.types[c.backend] == host.TypeBackup:
 							why = "connection-relayed-to-backup-while-main-is-healthy"
 						}
 						sched.Fail(why, fmt.Sprintf("%s history %v: relayed to %s, usable %v", policy, hist, c.backend, us))
